@@ -4,6 +4,9 @@ UNIT = dict(
   items=[
     ('laythe_core/src/chunk.rs', ['struct Chunk', ('impl Chunk', ['get_line'])]),
     ('laythe_vm/src/source/files.rs', ['struct LineOffsets', 'enum LineError', ('impl LineOffsets', ['lines', 'offset_line'])]),
+    ('laythe_vm/src/byte_code.rs', ['struct Label', 'enum CaptureIndex', 'enum SymbolicByteCode']),
+    ('laythe_vm/src/chunk_builder.rs', ['struct ChunkBuilder', ('impl ChunkBuilder', ['write_instruction'])]),
+    ('laythe_vm/src/compiler/mod.rs', [("impl<'a, 'src: 'a> Compiler<'a, 'src>", ['emit_byte', 'write_instruction'])]),
   ],
   rewrites=[
     ('R7f', 'struct Chunk'), ('R7f', 'struct LineOffsets'),
@@ -12,7 +15,15 @@ UNIT = dict(
     ('R6', 'struct Chunk', dict(pat='Array<u16, Header>', rep='Vec<u16>', count=1)),
     ('R6', 'LineOffsets::offset_line', dict(pat='self.offsets.binary_search(&offset)', rep='verif_binary_search(&self.offsets, &offset)', count=1)),
     ('R11', 'struct Chunk', dict(drop=['Clone', 'PartialEq', 'Eq'])),
+    ('R7f', 'struct Label'), ('R11', 'struct Label', dict(drop=['Debug'])), ('R11', 'enum CaptureIndex', dict(drop=['Debug'])),
+    ('R11', 'enum SymbolicByteCode', dict(drop=['Debug', 'Default'])),
+    ('R11', 'enum SymbolicByteCode', dict(pat='  #[default]\n', rep='', count=1)),
+    ('R11', 'enum SymbolicByteCode', dict(pat='  #[allow(dead_code)]\n', rep='', count=1)),
+    ('R7f', 'struct ChunkBuilder'), ('R10', 'struct ChunkBuilder', dict(keep=['instructions', 'lines'])), ('R11', 'struct ChunkBuilder', dict(drop=['Default'])),
+    # R10: Compiler is projected to the two fields emit_byte touches (stub struct in prelude.rs); arena lifetimes dropped
+    ('R5', 'impl Compiler', dict(pat="impl<'a, 'src: 'a> Compiler<'a, 'src>", rep='impl Compiler', count=1)),
+    ('R7', 'Compiler::*', dict(pat=r'^(\s*(?:///[^\n]*\n\s*)*)fn ', rep=r'\1pub fn ', regex=True, count=1)),
     ('R11', 'struct LineOffsets', dict(drop=['Default', 'Clone'])),
-    ('R11', 'enum LineError', dict(drop=['Debug', 'PartialEq', 'Eq'])),
+    ('R11', 'enum LineError', dict(drop=['PartialEq', 'Eq'])),
   ],
 )
